@@ -54,6 +54,16 @@ pub fn shape_invariant<E>(t: &TooDee<E>, what: &str) -> Verdict {
     Ok(())
 }
 
+/// dims * == len and the zero rule only (what "the result is the original with / without the
+/// line" implies; the iterator lengths belong to C01 / C08-C10)
+pub fn shape_core<E>(t: &TooDee<E>, what: &str) -> Verdict {
+    let (c, r) = (t.num_cols(), t.num_rows());
+    let len = t.data().len();
+    ensure!(c.checked_mul(r) == Some(len), "invalid-shape", "{}: num_cols {} * num_rows {} != data().len() {}", what, c, r, len);
+    ensure!((c == 0) == (r == 0), "invalid-shape-zero-rule", "{}: size ({},{}) has exactly one zero dimension", what, c, r);
+    Ok(())
+}
+
 /// Every reachable cell is live and no id occurs twice.
 pub fn cells_live_distinct<E: Elem>(t: &TooDee<E>, what: &str) -> Verdict {
     if !E::TRACKED {
@@ -146,7 +156,7 @@ fn run_ins<E: Elem>(k: &InsCase, ctx: &mut Ctx) -> Verdict {
         } else {
             m.insert_col(at, line_ids.clone());
         }
-        shape_invariant(&t, name).map_err(|f| Failure { sig: format!("{}/{}", name, f.sig), msg: f.msg })?;
+        shape_core(&t, name).map_err(|f| Failure { sig: format!("{}/{}", name, f.sig), msg: f.msg })?;
         ensure!(t.size() == m.size(), format!("{}/wrong-size", name), "{}({}, {} items) on {}x{}: size {:?}, expected {:?}", name, at, len, c, r, t.size(), m.size());
         if !E::ZST {
             let got = ids_of(&t);
@@ -412,7 +422,7 @@ fn run_rem<E: Elem>(k: &RemCase, ctx: &mut Ctx) -> Verdict {
             Axis::Col => t.pop_col().is_none(),
         });
         ensure!(res == Ok(true), format!("{}/pop-empty", name), "{} on an empty array must return None, got {:?}", name, res);
-        shape_invariant(&t, name)?;
+        shape_core(&t, name)?;
         return Ok(());
     }
     if at >= dim {
@@ -423,7 +433,7 @@ fn run_rem<E: Elem>(k: &RemCase, ctx: &mut Ctx) -> Verdict {
             Axis::Col => drop(t.remove_col(at)),
         });
         ensure!(res.is_err(), format!("{}/invalid-remove-accepted", name), "{}({}) on a {}x{} array must panic but returned; size now {:?}", name, at, c, r, t.size());
-        shape_invariant(&t, name).map_err(|f| Failure { sig: format!("{}/rejected/{}", name, f.sig), msg: f.msg })?;
+        shape_core(&t, name).map_err(|f| Failure { sig: format!("{}/rejected/{}", name, f.sig), msg: f.msg })?;
         // the property only says "panics"; what C01 demands of a rejected call (array unchanged)
         // is C01's business. Here: the array must still be valid and hold live, distinct cells.
         cells_live_distinct(&t, name).map_err(|f| Failure { sig: format!("{}/rejected/{}", name, f.sig), msg: f.msg })?;
@@ -463,7 +473,7 @@ fn run_rem<E: Elem>(k: &RemCase, ctx: &mut Ctx) -> Verdict {
         Err(msg) => fail!(format!("{}/valid-remove-panicked", name), "{}({}) on a {}x{} array ({}) with script {:?} panicked: {}", name, at, c, r, E::NAME, k.script, msg),
     };
     // drain dropped: the array is the original without the line
-    shape_invariant(&t, name).map_err(|f| Failure { sig: format!("{}/{}", name, f.sig), msg: f.msg })?;
+    shape_core(&t, name).map_err(|f| Failure { sig: format!("{}/{}", name, f.sig), msg: f.msg })?;
     ensure!(t.size() == m.size(), format!("{}/wrong-size", name), "{}({}) on {}x{}: size {:?}, expected {:?}", name, at, c, r, t.size(), m.size());
     if !E::ZST {
         let got = ids_of(&t);
